@@ -300,6 +300,46 @@ theorem goJoin_foldl (a : List Nat) (l : List (List Nat)) (sep : List Nat) :
     simp only [List.append_assoc] at this ⊢
     exact this.symm
 
+theorem goJoin_snoc (a : List Nat) (l : List (List Nat)) (x sep : List Nat) :
+    goJoin (a :: (l ++ [x])) sep = (goJoin (a :: l) sep ++ sep) ++ x := by
+  rw [goJoin_foldl, goJoin_foldl, List.foldl_append]; rfl
+
+/-- the loop shared by join and toLocaleString: the list that strings.Join receives at the end is the running string R
+    of §15.4.4.5 / §15.4.4.3 step 10, whatever the element conversion does to the state -/
+theorem collectLoop_refines (O : Ops σ) (elem : Val → M σ (List Nat)) (sep : List Nat) (n : Nat) :
+    ∀ (lo : Nat) (a : List Nat) (l : List (List Nat)) (s : σ),
+    (foldUp (collectStep O elem) lo n (a :: l) >>= fun sl => (pure (Ret.val (.str (goJoin sl sep))) : M σ Ret)) s
+    = (foldUp (Spec.appendNext O elem sep) lo n (goJoin (a :: l) sep) >>= fun r => (pure (Ret.val (.str r)) : M σ Ret)) s := by
+  induction n with
+  | zero => intro lo a l s; rfl
+  | succ n ih =>
+    intro lo a l s
+    simp only [foldUp, bind, M.bind, collectStep, Spec.appendNext]
+    cases h : elem (O.get s lo) s with
+    | err e s' => rfl
+    | ok x s' =>
+      have := ih (lo + 1) a (l ++ [x]) s'
+      simp only [bind, M.bind, goJoin_snoc] at this
+      simp only [pure, M.pure, List.cons_append]
+      exact this
+
+/-- the whole loop, from the empty list -/
+theorem collect_refines (O : Ops σ) (elem : Val → M σ (List Nat)) (sep : List Nat) (m : Nat) (s : σ) :
+    (foldUp (collectStep O elem) 0 (m + 1) [] >>= fun sl => (pure (Ret.val (.str (goJoin sl sep))) : M σ Ret)) s
+    = ((fun s => elem (O.get s 0) s) >>= fun r0 => foldUp (Spec.appendNext O elem sep) 1 m r0
+        >>= fun r => (pure (Ret.val (.str r)) : M σ Ret)) s := by
+  simp only [foldUp, bind, M.bind, collectStep]
+  cases h : elem (O.get s 0) s with
+  | err e s' => rfl
+  | ok x s2 =>
+    have := collectLoop_refines O elem sep m 1 x [] s2
+    simp only [bind, M.bind, goJoin] at this
+    simp only [pure, M.pure, List.nil_append, Nat.zero_add]
+    exact this
+
+theorem joinElem_eq (O : Ops σ) (E : Env) : joinElem O E = Spec.joinElement O E := by
+  funext v; cases v <;> rfl
+
 theorem joinCore_refines (O : Ops σ) (E : Env) (len : Nat) (args : List Val) :
     joinCore O E len args = Spec.joinCore O E len args := by
   funext s
@@ -310,17 +350,17 @@ theorem joinCore_refines (O : Ops σ) (E : Env) (len : Nat) (args : List Val) :
   rw [hsep]
   by_cases h0 : len = 0
   · simp [h0]
-  · simp only [h0, if_false]
-    obtain ⟨m, hm⟩ : ∃ m, len = m + 1 := ⟨len - 1, by omega⟩
-    rw [hm]
-    simp only [Nat.add_sub_cancel, List.range_succ_eq_map, List.map_cons, List.map_map, goJoin_foldl, List.foldl_map]
-    rfl
-
+  · obtain ⟨m, hm⟩ : ∃ m, len = m + 1 := ⟨len - 1, by omega⟩
+    subst hm
+    simp only [Nat.add_one_ne_zero, if_false, Nat.add_sub_cancel, joinElem_eq]
+    have := collect_refines O (Spec.joinElement O E) (if argAt args 0 = Val.undef then [44] else E.ts (argAt args 0)) m s
+    simp only [bind, M.bind] at this ⊢
+    exact this
 
 /-- a conversion that does nothing: the argument is a primitive -/
 def Prim (O : Ops σ) (v : Val) : Prop := ∀ s, O.conv v s = .ok v s
 
-/-- **join = §15.4.4.5**, with the order: length, then ToString(separator) -/
+/-- **join = §15.4.4.5**, with the order: length, then ToString(separator), then per element [[Get]] and ToString -/
 theorem join_refines (O : Ops σ) (E : Env) (args : List Val) : join O E args = Spec.join O E args := by
   funext s
   simp only [join, Spec.join, joinCore_refines]
@@ -328,31 +368,19 @@ theorem join_refines (O : Ops σ) (E : Env) (args : List Val) : join O E args = 
   · simp only [hu, ne_eq, not_true_eq_false, if_false, if_true]
   · simp only [hu, ne_eq, not_false_eq_true, if_true, if_false]
 
+/-- **toString = §15.4.4.2**: the `join` found on the receiver is called (built-in join, a script function, or
+    Object.prototype.toString when it is not callable) with no arguments -/
+theorem toString_refines (O : Ops σ) (E : Env) (args : List Val) : toStringM O E args = Spec.toStringS O E args := by
+  funext s
+  simp only [toStringM, Spec.toStringS, bind, M.bind]
+  cases h : O.joinGet s with
+  | err e s' => rfl
+  | ok k s1 => cases k <;> simp only [join_refines] <;> rfl
+
 /-! ## toLocaleString -/
 
-theorem localeElem_eq (O : Ops σ) (E : Env) (v : Val) : localeElem O E v = Spec.localeElement O E v := by
-  cases v <;> rfl
-
-theorem goJoin_snoc (a : List Nat) (l : List (List Nat)) (x sep : List Nat) :
-    goJoin (a :: (l ++ [x])) sep = (goJoin (a :: l) sep ++ sep) ++ x := by
-  rw [goJoin_foldl, goJoin_foldl, List.foldl_append]; rfl
-
-/-- the list that strings.Join receives at the end is the running string R of §15.4.4.3 step 10 -/
-theorem localeLoop_refines (O : Ops σ) (E : Env) (n : Nat) : ∀ (lo : Nat) (a : List Nat) (l : List (List Nat)) (s : σ),
-    (foldUp (localeStep O E) lo n (a :: l) >>= fun sl => (pure (Ret.val (.str (goJoin sl [44]))) : M σ Ret)) s
-    = (foldUp (Spec.localeNext O E) lo n (goJoin (a :: l) [44]) >>= fun r => (pure (Ret.val (.str r)) : M σ Ret)) s := by
-  induction n with
-  | zero => intro lo a l s; rfl
-  | succ n ih =>
-    intro lo a l s
-    simp only [foldUp, bind, M.bind, localeStep, Spec.localeNext, localeElem_eq]
-    cases h : Spec.localeElement O E (O.get s lo) s with
-    | err e s' => rfl
-    | ok x s' =>
-      have := ih (lo + 1) a (l ++ [x]) s'
-      simp only [bind, M.bind, goJoin_snoc] at this
-      simp only [pure, M.pure, List.cons_append]
-      exact this
+theorem localeElem_eq (O : Ops σ) (E : Env) : localeElem O E = Spec.localeElement O E := by
+  funext v; cases v <;> rfl
 
 /-- **toLocaleString = §15.4.4.3** for every receiver and every argument list: the length is read, then every element
     is read and its toLocaleString called with an empty argument list, in turn; the arguments are not used -/
@@ -368,14 +396,10 @@ theorem toLocaleString_refines (O : Ops σ) (E : Env) (args : List Val) :
     · simp [h0]
     · obtain ⟨m, hm⟩ : ∃ m, len = m + 1 := ⟨len - 1, by omega⟩
       subst hm
-      simp only [Nat.add_one_ne_zero, if_false, foldUp, bind, M.bind, localeStep, localeElem_eq, Nat.add_sub_cancel]
-      cases h : Spec.localeElement O E (O.get s1 0) s1 with
-      | err e s' => rfl
-      | ok x s2 =>
-        have := localeLoop_refines O E m 1 x [] s2
-        simp only [bind, M.bind, goJoin] at this
-        simp only [pure, M.pure, List.nil_append, Nat.zero_add]
-        exact this
+      simp only [Nat.add_one_ne_zero, if_false, Nat.add_sub_cancel, localeElem_eq]
+      have := collect_refines O (Spec.localeElement O E) [44] m s1
+      simp only [bind, M.bind] at this ⊢
+      exact this
 
 /-! ## splice -/
 
@@ -691,6 +715,9 @@ def tOps : Ops (List (Option Val)) where
   conv := fun v s => .ok v s
   thisRaw := fun _ => .recv
   locale := fun v _ s => .ok v s
+  joinGet := fun s => .ok .builtin s
+  userJoin := fun _ s => .ok .undef s
+  objToString := fun _ => .str []
 
 /-! ## sort: the result is a permutation (§15.4.4.11, first bullet of the postcondition) -/
 
@@ -887,6 +914,9 @@ def wOps : Ops W where
     | p => .ok p s
   thisRaw := fun _ => .recv
   locale := fun v args s => .ok (.str [120]) { s with log := (v :: args) :: s.log }
+  joinGet := fun s => .ok .builtin s
+  userJoin := fun args s => .ok (.str [106]) { s with log := (.str [74] :: args) :: s.log }
+  objToString := fun _ => .str [111]
 
 def E0 : Env := { pn := fun _ => .nan, ts := fun _ => [] }
 
@@ -899,6 +929,19 @@ theorem toLocaleString_passes_nothing :
     (match toLocaleStringM wOps E0 [.int 5, .str [1]] ⟨3, [some (.int 1), none, some (.int 2)], [], true, false⟩ with
       | .ok r s => (some r, s.log)
       | .err _ s => (none, s.log)) = (some (.val (.str [44, 44])), [[.int 2], [.int 1]]) := by decide
+
+/-- toString calls the join it finds on the receiver — with no arguments — and returns what that returns; a join that is
+    not callable gives Object.prototype.toString -/
+theorem toString_calls_found_join :
+    (match toStringM { wOps with joinGet := fun s => .ok .user s } E0 [.int 5] ⟨2, [some (.int 1), some (.int 2)], [], true, false⟩ with
+      | .ok r s => (some r, s.log)
+      | .err _ s => (none, s.log)) = (some (.val (.str [106])), [[.str [74]]])
+    ∧ retOf (toStringM { wOps with joinGet := fun s => .ok .other s } E0 [] ⟨1, [some (.int 1)], [], true, false⟩)
+      = some (.val (.str [111])) := by decide
+
+/-- join converts an element that is an object (its toString runs), in index order after the separator -/
+theorem join_converts_elements :
+    (stateOf (join wOps E0 [.obj 1] ⟨2, [some (.obj 2), some (.obj 3)], [], true, false⟩)).log = [[.obj 3], [.obj 2], [.obj 1]] := by decide
 
 /-- splice_one_argument: [1].splice(0) — by the letter of ES5.1 nothing is removed -/
 example : retOf (splice wOps E0 [.int 0] ⟨1, [some (.int 1)], [], true, false⟩) = some (.arr [some (.int 1)])
